@@ -14,6 +14,7 @@ RULE = ("G_live witness graphs (+ the repository's own test topology) under both
         "checked for isolation (own nonce only, seq/time from 0, C03/C04 clauses); one evaluation = one episode; non-trivial = "
         "episode whose forced gate was reached or that ended with an immediate stop/next reset; distinct by spec digest x episode "
         "x ending")
+RULE += " Built later (thorough): 48 cases with seeded pauses at statement starts inside rex/asynchronous.py in every thread (sys.monitoring LINE events)."
 RULE += " Built later: G_wide family (overruns and blocking+skip allowed, no blocking fast->slow edge; supported since repairs 4f3d528/f3bcd76)."
 RULE += " Built later: blocking-cycle family (slow->fast blocking edge, blocking skipped back-edge, rate multiple <= 4, one starved connection worker)."
 RULE += " Built later: ring family (a bursty fast node between the supervisor and a slow node) that makes a lost wake-up in a connection's selection queue a deadlock."
@@ -185,6 +186,9 @@ def run_case(case):
             state["err"] = "".join(traceback.format_exception(type(ex), ex, ex.__traceback__))[-1200:]
             state["done"] = True
 
+    ly = None
+    if case.get("line_yield"):  # thorough tier: seeded pauses at statement starts inside rex/asynchronous.py, in every thread
+        ly = D.LineYield(seed=case["spec_seed"], p=case["line_yield"], max_sleep=case.get("line_sleep", 0.0)).__enter__()
     th = threading.Thread(target=user, daemon=True, name="rexmon-user")
     th.start()
     q = D.Quiescence(mon, th.ident, interval=1.0)
@@ -210,6 +214,10 @@ def run_case(case):
             hits = 0
 
     items, counters, samples = [], Counter(), []
+    if ly is not None:
+        counters["line_events"], counters["line_yields"] = ly.lines, ly.yields
+        if deadlock is None and not th.is_alive():
+            ly.__exit__()
     counters["lifecycle_calls"] = state["calls"]
     counters["gates_reached"] = state["gates"]
     counters["gate_misses"] = state["gate_misses"]
@@ -301,4 +309,11 @@ def plan(tier, seed):
     cases += [dict(name=f"fan-{i}", kind="fan", spec_seed=seed * 100057 + 17000 + i, clock="sim", timeout=300) for i in range(6 if tier == "quick" else 60)]
     cases += [dict(name=f"blk-{i}", kind="blk", spec_seed=seed * 100057 + 13000 + i, clock="sim", timeout=300) for i in range(16 if tier == "quick" else 160)]
     cases += [dict(name=f"corpus-{i}", spec_seed=seed * 100057 + 9000 + i, corpus=i % 3, clock="sim", timeout=300) for i in range(3 if tier == "quick" else 12)]
+    if tier == "thorough":  # statement-level pauses inside rex/asynchronous.py (sys.monitoring LINE events), all families
+        for i in range(48):
+            k = [None, "blk", "cyc", "wide"][i % 4]
+            c = dict(name=f"ly-{i}", spec_seed=seed * 100057 + 21000 + i, clock="sim", timeout=600, line_yield=0.03, line_sleep=0.0005)
+            if k:
+                c["kind"] = k
+            cases.append(c)
     return cases
